@@ -157,6 +157,16 @@ def judge(ctx, idx, case):
         # fresh source for every derivation: mutations must not accumulate across judgements
         src = common.build(case["ops"]).doc
         other = interp.run(case["other"]).doc
+        if dname in ("update", "add_record", "add_bundle_doc") and r.random() < 0.5:
+            # the receiving document already binds the source's prefixes to other namespaces: everything copied over gets renamed
+            # there, which must not show on the source side
+            for ns in list(src.namespaces) + [n for b in src.bundles for n in b.namespaces]:
+                try:
+                    other.add_namespace(ns.prefix, "http://clash.example/%s/" % ns.prefix)
+                except Exception:
+                    pass
+            ctx.count("derive.%s.with_prefix_clashes" % dname)
+        src_before = view(src)
         try:
             if dname == "copy":
                 recs = [x for c in [src] + list(src.bundles) for x in c._records]
@@ -206,6 +216,13 @@ def judge(ctx, idx, case):
             ctx.count("derive.%s.raised.%s" % (dname, type(e).__name__))
             continue
         ctx.count("derive.%s.ok" % dname)
+        if view(src) != src_before:
+            # the deriving operation itself is not a modification of the source
+            after = view(src)
+            which = "content" if after[0] != src_before[0] else ("namespaces" if after[1] != src_before[1] else "printed names")
+            problems.append({"derive": dname, "problem": "the deriving operation itself changed the source (%s)" % which,
+                             "before": strict.jsonable([x for x in src_before[2] if x not in after[2]][:2]) if which == "printed names" else None,
+                             "after": strict.jsonable([x for x in after[2] if x not in src_before[2]][:2]) if which == "printed names" else None})
         for a, b in pairs:
             if a is b:
                 problems.append({"derive": dname, "problem": "the operation returned its source object"})
